@@ -367,7 +367,9 @@ fn peq_values() -> Vec<Value> {
                 "3.4028234663852886e38", "3.4028235e38", "3.4028236e38", "340282356779733661637539395458142568448", "1e38", "1e39", "1.7976931348623157e308", "1.7976931348623158e308",
                 "1.7976931348623159e308", "1e308", "1e309", "1e400", "-1e400", "1e-400", "-1e-400", "5e-324", "4.9e-324", "2.4703282292062327e-324", "2.4703282292062328e-324",
                 "1e-45", "7e-46", "1.401298464324817e-45", "0.30000000000000004", "0.1000000000000000055511151231257827021181583404541015625",
-                "123456789012345678901234567890", "0.000000000000000000000000000000000000000000000000000001", "1.5", "-1.5", "0.5", "2e0", "1e22", "1e23"] {
+                "123456789012345678901234567890", "0.000000000000000000000000000000000000000000000000000001", "1.5", "-1.5", "0.5", "2e0", "1e22", "1e23",
+                // just above the midpoint of two adjacent f32 (1 + 2^-24) by less than half an f64 ulp: one rounding gives 1.0000001, two give 1.0
+                "1.00000005960464477539062500001", "1.000000059604644775390625", "1.00000005960464477539062499999"] {
         vs.push(serde_json::from_str(lit).unwrap());
     }
     vs
@@ -395,7 +397,7 @@ fn run_peq(sink: &mut Sink, thorough: bool, r: &mut Rng) {
                 9223372036854775808.0, -9223372036854775808.0, 18446744073709551616.0, 18446744073709549568.0, 1e300, -1e300, 0.1, 0.1f32 as f64, f32::MAX as f64, 16777216.0, 5e-324, f64::MAX];
     for x in f64s { let c = format!("{:016x}", x.to_bits()); for v in &vs { emit_peq(sink, "f64", &c, v, "boundary"); } }
     let f32s = [0.0f32, -0.0, f32::NAN, f32::INFINITY, f32::NEG_INFINITY, 1.0, -1.0, 1.5, 127.0, 255.0, 16777216.0, 16777218.0, 9007199254740992.0, 9223372036854775808.0,
-                -9223372036854775808.0, 18446744073709551616.0, 0.1, f32::MAX, f32::MIN_POSITIVE, 1e-45, 0.5];
+                -9223372036854775808.0, 18446744073709551616.0, 0.1, f32::MAX, f32::MIN_POSITIVE, 1e-45, 0.5, f32::from_bits(0x3f800001)];
     for x in f32s { let c = format!("{:08x}", x.to_bits()); for v in &vs { emit_peq(sink, "f32", &c, v, "boundary"); } }
     for b in ["t", "f"] { for v in &vs { emit_peq(sink, "bool", b, v, "boundary"); } }
     for s in ["", "1", "a", "true", "-1", "é", "null"] { let c = hexf(s.as_bytes()); for v in &vs { emit_peq(sink, "str", &c, v, "boundary"); } }
